@@ -972,7 +972,7 @@ def directed_simpy(ctx, n):
     rng = ctx.rng
     for _ in range(n):
         kind = rng.choice(['embedded', 'interrupts', 'allof', 'falsy-results', 'stop-at-zero', 'native-activities',
-                           'chained-trigger', 'condition-snapshot'])
+                           'chained-trigger', 'condition-snapshot', 'interrupt-at-processed', 'or-chain'])
         log = []
         if kind == 'embedded':
             T0, enter, d = rng.choice([0, 0, 4, 9]), rng.choice([0, 3, 4, 7]), rng.choice([1, 2, 5])
@@ -1121,6 +1121,61 @@ def directed_simpy(ctx, n):
                 log.append((sorted(res.values()), env.now))
             env.process(proc(env))
             want = [(['a', 'b'], d2)] if which == 'all_of' else [(['a'], d1)]
+            runner = lambda: env.run()   # noqa
+        elif kind == 'interrupt-at-processed':
+            # two interrupts in one time step for a process whose handler yields an event that was processed long ago: the
+            # second Interrupt is raised at THAT yield (one per yield, in call order, in the time step of the calls)
+            t = rng.choice([2, 3])
+            case = {'interrupt_at_processed': dict(at=t)}
+            env = Environment()
+            old = env.timeout(1, 'old')
+
+            def victim(env):
+                try:
+                    yield env.timeout(50)
+                except Interrupt as i1:
+                    log.append(('first', i1.cause, env.now))
+                    try:
+                        v = yield old
+                        log.append(('old event gave', v, env.now))
+                        yield env.timeout(5)
+                        log.append(('slept', env.now))
+                    except Interrupt as i2:
+                        log.append(('second', i2.cause, env.now))
+                yield env.timeout(1)
+                log.append(('done', env.now))
+            vp = env.process(victim(env))
+
+            def attacker(env):
+                yield env.timeout(t)
+                vp.interrupt('one')
+                vp.interrupt('two')
+            env.process(attacker(env))
+            want = [('first', 'one', t), ('second', 'two', t), ('done', t + 1)]
+            runner = lambda: env.run()   # noqa
+        elif kind == 'or-chain':
+            # `a | b | c` where one of the first two fails and the waiting process handles it: the failure was handled, the run
+            # goes on and ends normally
+            t, bad = rng.choice([1, 2]), rng.choice([0, 1])
+            case = {'or_chain': dict(at=t, failing=bad)}
+            env = Environment()
+            evs = [env.event() for _ in range(3)]
+
+            def waiter(env):
+                try:
+                    yield evs[0] | evs[1] | evs[2]
+                    log.append(('no failure seen', env.now))
+                except KeyError as e:
+                    log.append(('handled', e.args[0], env.now))
+                yield env.timeout(5)
+                log.append(('waiter done', env.now))
+
+            def controller(env):
+                yield env.timeout(t)
+                evs[bad].fail(KeyError('member %d' % bad))
+            env.process(waiter(env))
+            env.process(controller(env))
+            want = [('handled', 'member %d' % bad, t), ('waiter done', t + 5)]
             runner = lambda: env.run()   # noqa
         elif kind == 'stop-at-zero':
             # a run that stops at time 0 (an event firing at once) with later timeouts pending: env.now stays at the stop
